@@ -1,5 +1,6 @@
 # job registry: per property, per tier the list of (harness, parameterisation) = CBMC obligation sets
 from vplib.pipeline import Job
+PORTFOLIO = ('cadical', 'minisat', 'kissat')   # started in parallel per query, first verdict wins (SAT solver time varies 10x)
 
 # built-in numeric base types, transcribed from the documentation comments in DataTypeList::DataTypeList (datatype.cpp):
 # (id, bits, flags, replacement, min, max, divisor); flags: BCD=2 REV=4 SIG=8 REQ=0x40 HCD=0x80
@@ -100,8 +101,19 @@ def jobs(prop, tier):
     if prop in ('C05', 'C06', 'C10'):
         names = None
         if prop == 'C10':
-            names = ['BI0_1', 'BI0_7', 'BI3_2', 'BI3_5', 'BI7', 'UCH', 'SIR', 'BCD2'] if not T else [t[0] for t in RAWTYPES]
-        J += rawtype_jobs(prop, T or prop == 'C10', names=names, solver='cadical', timeout=1200 if T else 280)
+            names = ['BI0_1', 'BI0_7', 'BI3_2', 'BI3_5', 'BI7', 'UCH', 'SIR', 'BCD2']
+        J += rawtype_jobs(prop, T, names=names, solver='cadical', timeout=1500 if T else 280)
+    if prop == 'C14':
+        DEV = dict(link=['lib/ebus/device_trans.cpp', 'lib/ebus/symbol.cpp', 'lib/ebus/result.cpp'],
+                   models=['string', 'libc', 'sstream_null', 'posix', 'containers', 'libm'], solver=PORTFOLIO,
+                   noop_stubs=['_ZN5ebusd14EnhancedDevice19notifyInfoRetrievedEv'])
+        J.append(Job('C14', 'encode', 'C14_enhanced.cpp', defs={'H_ENCODE': None}, unwind=10, shape='K', timeout=600 if T else 250,
+                     bounds='all 256 symbols x {send, start arbitration, info request}', **DEV))
+        J.append(Job('C14', 'frame', 'C14_enhanced.cpp', defs={'H_FRAME': None}, unwind=10, unwindset={'cstrlen': 34, 'put_field': 34, 'vs_copy': 34, 'basic_ostringstreamIcSt11char_traitsIcESaIcEE3strEv': 34}, shape='K', timeout=900 if T else 250,
+                     bounds='every well-formed unit (plain byte or two-byte frame of any command/data) from every arbitration state', **DEV))
+        for l in ((2, 3) if T else (2,)):
+            J.append(Job('C14', 'chunk%d' % l, 'C14_enhanced.cpp', defs={'H_CHUNK': None, 'L': l}, unwind=l + 2, unwindset={'cstrlen': 34, 'put_field': 34, 'vs_copy': 34, 'basic_ostringstreamIcSt11char_traitsIcESaIcEE3strEv': 34}, shape='R', timeout=3000 if T else 280,
+                         bounds='every stream of %d arbitrary bytes, every split position, every initial arbitration state' % l, **DEV))
     if prop == 'C07':
         J += numtype_jobs('C07', 'C07_parse.cpp', T, {}, 'parse_', solver='cadical', timeout=900 if T else 250)
     if prop == 'C12':
@@ -114,6 +126,12 @@ BUS_NOTE = ('Trusted: clang-14 lowering, ll2c, models (string, sstream, posix, c
             '(every read result = timeout | error | chunk of 1..2 arbitrary bytes), clock = arbitrary non-decreasing instants, logging off. '
             'DirectProtocolHandler::run() itself (thread start, 5 s reopen wait) is not encoded; its loop body is re-stated in env_bus.h Stepper.')
 META = {
+ 'C14': dict(
+   level_text='Bounded model checking of the real EnhancedDevice (send/startArbitration/requestEnhancedInfo/recv/handleEnhancedBufferedData): exact two-byte encoding for all symbols; every well-formed unit decodes to the symbol and won/lost result the enhanced protocol assigns from every arbitration state; every stream of L arbitrary bytes decodes to the same symbols, results and diagnostics for every split into two chunks.',
+   level_note='Trusted: clang-14 lowering, ll2c, models (string, sstream for diagnostic texts), CBMC. Environment: in-memory transport handing out what is buffered; time() constant per execution. Outside: plain-device FileTransport buffering (::read/ppoll), splits into more than two chunks, streams longer than L, info response texts.',
+   outside_claim='FileTransport read buffering and overflow handling, more than two chunks, streams longer than the bound, info text formatting',
+   assumptions=COMMON_ASSUME,
+ ),
  'C05': dict(
    level_text='Bounded model checking of the real numeric decode kernels: for every byte pattern of every checked built-in type (all 1..4 byte integer, fixed-point, BCD/HCD, weekday and bit types incl. big-endian variants) the raw decode equals an independent reference (endianness, digit validity, bit range), the replacement pattern decodes to null, out-of-range raws are rejected, and the numeric value equals sign/divisor semantics of the type definition.',
    level_note='Raw-level kernels only: readRawValue / getFloatFromRawValue / writeRawValue of the real NumberDataType per built-in numeric, BCD/HCD, weekday and bit type. Trusted: clang-14 lowering, ll2c, CBMC float encoding. Outside: text rendering and parsing through iostreams (readSymbols/writeSymbols text), date/time/string types, EXP/KNX floats, value lists, DataFieldSet layout across several fields.',
